@@ -76,6 +76,21 @@ func VerifC08_HopByHop() {
 	_ = NewHopByHopHeader().UnmarshalBinary(data)
 }
 
+// a hop-by-hop header long enough to hold an option of maximal length (HEL 31..33: 256..272
+// bytes): everything is Pad1 (zero bytes) except one option header with symbolic type and length
+// at the start, after another option, or near the end
+func VerifC08_HopByHopLongOption() {
+	hel := 31 + vr.Choice("hel", 3)
+	n := 8 * (hel + 1)
+	data := make([]byte, n)
+	data[0], data[1] = vr.U8("next"), uint8(hel)
+	at := []int{2, 4, n - 4}[vr.Choice("at", 3)]
+	data[at], data[at+1] = vr.U8("opttype"), vr.U8("optlen")
+	vr.LoopBound(n + 2)
+	vr.AllocLimit(65536 + 16*n)
+	_ = NewHopByHopHeader().UnmarshalBinary(data)
+}
+
 func VerifC08_Routing() {
 	data := c08input(26, 48)
 	_ = NewRoutingHeader().UnmarshalBinary(data)
